@@ -153,7 +153,10 @@ def run_compose_schema(ctx, schema, cases, optsets):
                     continue
                 root, err = find_root(gen)
                 if root is None:
-                    ctx.violation(f"generated package does not import / has no Root ({oname}): {err}", {**info, "files": {k: v[:1500] for k, v in gen.files.items()}})
+                    # F55: namespaces style + classes WITHOUT namespace next to namespaced ones: <pkg>.py beside <pkg>/
+                    shadowed = err is None and any(k == f"{gen.pkg}.py" for k in gen.files) and any(k.startswith(f"{gen.pkg}/") for k in gen.files)
+                    ctx.violation(f"generated package does not import / has no Root ({oname}): {err}",
+                                  {**info, "files": {k: v[:1500] for k, v in gen.files.items()}, "finding_tags": ["F55"] if shadowed else []})
                     continue
                 xctx = XmlContext(models_package=gen.pkg)
                 for c in cases:
@@ -204,6 +207,32 @@ def run_compose_schema(ctx, schema, cases, optsets):
         shutil.rmtree(work, ignore_errors=True)
 
 
+XSI_DECL = 'xmlns:xsi="http://www.w3.org/2001/XMLSchema-instance"'
+
+
+def handwritten_corpus(ctx, optsets):
+    """Schemas outside the generated universes, with their valid documents, through the same pipeline (libxml2
+    validates schema and documents first).  A MAIN schema WITHOUT target namespace (base type, derived type selected by
+    xsi:type, recursion) that imports a namespaced one: under the single-package style all classes share one module."""
+    main = ('<xs:schema xmlns:xs="http://www.w3.org/2001/XMLSchema" xmlns:e="urn:ext" elementFormDefault="qualified">'
+            '<xs:import namespace="urn:ext" schemaLocation="lib.xsd"/>'
+            '<xs:complexType name="Party"><xs:sequence><xs:element name="name" type="xs:string"/><xs:element ref="e:note" minOccurs="0"/></xs:sequence>'
+            '<xs:attribute name="id" type="xs:int"/></xs:complexType>'
+            '<xs:complexType name="Company"><xs:complexContent><xs:extension base="Party"><xs:sequence><xs:element name="vat" type="xs:string"/>'
+            '<xs:element name="tag" type="e:Tag" minOccurs="0"/></xs:sequence></xs:extension></xs:complexContent></xs:complexType>'
+            '<xs:element name="root"><xs:complexType><xs:sequence><xs:element name="party" type="Party" maxOccurs="unbounded"/></xs:sequence></xs:complexType></xs:element>'
+            "</xs:schema>")
+    lib = ('<xs:schema xmlns:xs="http://www.w3.org/2001/XMLSchema" targetNamespace="urn:ext" xmlns:e="urn:ext" elementFormDefault="qualified">'
+           '<xs:element name="note" type="xs:string"/>'
+           '<xs:complexType name="Tag"><xs:sequence><xs:element name="k" type="xs:string"/></xs:sequence></xs:complexType></xs:schema>')
+    docs = [f'<root {XSI_DECL}><party id="1"><name>n</name></party></root>',
+            f'<root {XSI_DECL} xmlns:e="urn:ext"><party><name>n</name><e:note>x</e:note></party><party xsi:type="Company" id="2"><name>c</name><vat>v</vat>'
+            f"<tag><e:k>t</e:k></tag></party></root>",
+            f'<root {XSI_DECL}><party xsi:type="Company"><name>c</name><e:note xmlns:e="urn:ext">y</e:note><vat>v</vat></party><party><name>m</name></party></root>']
+    schema = {"_files": {"main.xsd": main, "lib.xsd": lib}, "name": "no-namespace main schema importing a namespaced one"}
+    run_compose_schema(ctx, schema, [{"doc": d, "uniform": True} for d in docs], optsets)
+
+
 def run_compose(ctx):
     mc = ("SPECIFICATION Spec\nCONSTANTS\n  MaxDocIdx = 5\nCONSTRAINT MCOnly\nINVARIANT InvFixpointIsWalk\nINVARIANT InvLegalDerivation\n"
           "INVARIANT InvHeadsAccepted\nINVARIANT InvOccRespected\nCHECK_DEADLOCK FALSE\n")
@@ -224,6 +253,7 @@ def run_compose(ctx):
         if n == 0:
             ctx.sample({"xsd": cb.schema_files(cases[0]["schema"]), "document": cb.doc_xml(cases[0]["schema"], cases[0]["doc"])})
     ctx.extra["compose_schemas"] = len(by)
+    handwritten_corpus(ctx, optsets)
 
 
 def run(ctx):
